@@ -334,6 +334,14 @@ def refute(tier, seed, emit):
         ok, msg = replay({'kind': 'normalise', 'c': c})
         if ok:
             emit.violation('amplitude-normalise-scale-free', {'kind': 'normalise', 'c': c}, msg)
+    emit.scope('wrap_phase on negative, zero, multiple-of-2pi and large phases: result in [0, 2pi) and congruent to the argument')
+    import emd
+    vals = np.array([-7.5, -2 * np.pi, -1e-9, -0.3, 0.0, 1.0, 2 * np.pi - 1e-9, 2 * np.pi, 6.5, 40.0, -40.0])
+    emit.case(('wrap',), contract='wrap_phase')
+    wv = emd.utils.wrap_phase(vals.copy())
+    kq = (vals - wv) / (2 * np.pi)
+    if wv.min() < 0 or wv.max() >= 2 * np.pi or not np.allclose(kq, np.round(kq), atol=1e-9):
+        emit.violation('wrap-phase-range-and-congruence', {'kind': 'scale', 'method': 'hilbert', 'sr': 256, 'c': 1.0}, 'wrap_phase(%s) = %s' % (vals.tolist(), wv.tolist()))
     r = rng(seed, 9)
     nrt = 20 if tier == 'quick' else 200
     emit.scope('%d smooth random frequency profiles + constant profiles: freq -> phase -> freq' % nrt)
